@@ -179,7 +179,7 @@ Definition dmn_spec (args : list val) : val :=
             (* both walks are evaluated over the whole history: a run can falsify the ring clauses (C11 / C17) and the
                memory / log / configuration clauses (C05, C09, C13, C14, C15) at once, and each property's own check must see it *)
             let ring_tag := if v =? 17 then "C17" else if v =? 28 then "C11,C17" else if negb (v =? 0) then "C11" else "" in
-            let w := mwalk (minit nq maxq f) steps obs in
+            let w := mwalk (minit nq maxq f) false steps obs in
             let mem_tag := if w =? 0 then "" else if w =? 5 then "C05" else if w =? 9 then "C09" else if w =? 13 then "C13"
                            else if w =? 15 then "C15" else if w =? 135 then "C13,C15" else "C14" in
             if String.eqb ring_tag "" && String.eqb mem_tag "" then VS "true"
